@@ -13,8 +13,8 @@ enum ArtType { A_PUBKEY33, A_PUBKEY65, A_XONLY, A_ECDSA64, A_ECDSA_DER, A_RECSIG
                A_ELLSWIFT, A_HALFAGG, A_COMMIT, A_GENERATOR, A_RANGEPROOF, A_SURJECTION, A_WHITELIST, A_BPPP_GENS, A_NTYPES };
 const char *const AN[] = {"pubkey33", "pubkey65", "xonly", "ecdsa64", "ecdsa_der", "recsig", "schnorr", "pubnonce", "aggnonce", "psig", "adaptor", "opening",
                           "ellswift", "halfagg", "commit", "generator", "rangeproof", "surjection", "whitelist", "bppp_gens"};
-enum DiskFault { D_NONE, D_BITROT, D_TORN, D_SHORT, D_EXTEND, D_STALE, D_MISDIRECT, D_ZERO, D_FF, D_HDRBIT, D_TAILBIT, D_NF };
-const char *const DN[] = {"intact", "bitrot", "torn", "short", "extend", "stale", "misdirected", "zero_block", "ff_block", "header_bit", "trailer_bit"};
+enum DiskFault { D_NONE, D_BITROT, D_TORN, D_SHORT, D_EXTEND, D_STALE, D_MISDIRECT, D_ZERO, D_FF, D_HDRBIT, D_TAILBIT, D_HDRSWEEP, D_NF };
+const char *const DN[] = {"intact", "bitrot", "torn", "short", "extend", "stale", "misdirected", "zero_block", "ff_block", "header_bit", "trailer_bit", "header_sweep"};
 
 Bytes artifact(const Fixtures &f, int t) {
     switch (t) {
@@ -354,6 +354,13 @@ static void store_execute(const Plan &p, const ExecOpts &, Result &r) {
             case D_TAILBIT: if (n) { size_t bit = (size_t)(a1 % 8); rec[n - 1] ^= (uint8_t)(1u << bit); } break;   // single-bit rot in the last byte (recovery ids, trailing scalars)
             default: break;
         }
+        // header sweep: the same record is read back once per single-bit error in its first three bytes (where lengths, counts,
+        // exponents and mantissas live) - every one of the up to 24 variants goes through the same parse / verify / use path
+        std::vector<Bytes> variants;
+        if (f == D_HDRSWEEP && n) { for (size_t bit = 0; bit < 8 * std::min<size_t>(n, 3); bit++) { Bytes v = good; v[bit / 8] ^= (uint8_t)(1u << (bit % 8)); variants.push_back(v); } }
+        else variants.push_back(rec);
+        for (size_t vi = 0; vi < variants.size() && r.ok; vi++) {
+        rec = variants[vi];
         bool intact = rec == good && !structural;   // structural records parse but are not the wallet's own signature
         if (f != D_NONE && !intact) r.fault(std::string("disk.") + DN[f]);
         r.ev(std::string("read ") + AN[t] + " " + DN[f] + " len " + std::to_string(rec.size()) + " " + hex(rec).substr(0, 24));
@@ -367,6 +374,7 @@ static void store_execute(const Plan &p, const ExecOpts &, Result &r) {
             r.violate("C07", "illegal_callback", g_mon.last_illegal, std::string("illegal-argument callback reached from a stored ") + AN[t] + " record (" + DN[f] + "): " + g_mon.last_illegal);
         if (r.ok && g_mon.live.size() != live0)
             r.violate("C07", "leak", AN[t], std::string("handling a ") + DN[f] + " " + AN[t] + " record left " + std::to_string(g_mon.live.size() - live0) + " allocated block(s) behind");
+        }
     }
     L(secp256k1_context_destroy(ctx));
     monitors_epilogue(r, r.expected_illegal, r.expected_error);
